@@ -2,9 +2,9 @@ SPECIFICATION Spec
 CONSTANTS
   NF = 1
   MaxLen = 60
-  Kinds = {"mod", "modeonly", "add"}
+  Kinds = {"cc", "mod", "modeonly"}
   MaxHunks = 2
-  MaxBody = 5
+  MaxBody = 2
   Preamble = TRUE
   MaxConf = 1
   Buf = 1
